@@ -906,6 +906,8 @@ static std::string step(Line const& l)
         if (cap == 1) return sv_ops<int, 1>(l);
         if (cap == 3) return sv_ops<int, 3>(l);
         if (cap == 4) return sv_ops<int, 4>(l);
+        if (cap == 255) return sv_ops<int, 255>(l); // the size field narrows to uint8_t up to 255 ...
+        if (cap == 256) return sv_ops<int, 256>(l); // ... and to uint16_t from 256 (smallest_size_t)
         return "bad-op\tbad-op";
     }
     if (pre == "iv") return cap == 1 ? iv_ops<1>(l) : cap == 3 ? iv_ops<3>(l) : cap == 4 ? iv_ops<4>(l) : "bad-op\tbad-op";
